@@ -1210,3 +1210,62 @@ def check_provider_argument(fns, fn_name_needle):
     if not seen_provider:
         raise Shape("%s never consults the suffix provider" % fn_name_needle)
     return F, len(ps)
+
+
+# ---- C13: duplicate members are rejected by the integer-keyed map visitors ------------------------
+
+def check_duplicate_detection(fns):
+    """every `visit_map` generated by serde_workaround!: a member's value is only read
+    (`MapAccess::next_value::<T>`, T != IgnoredAny) after `check_is_already_set` for that key, on every
+    path through one iteration of the key loop; `set_if_none` itself checks before it reads."""
+    from .executor import Executor
+    F = []
+    npaths = 0
+    vms = [f for n, f in fns.items() if n.endswith(">::visit_map") and "serde_workaround.rs" in n]
+    if not vms:
+        raise Shape("no serde_workaround visit_map in the MIR")
+    helper = [f for n, f in fns.items() if n == "set_if_none" or n.endswith("::set_if_none")]
+    if len(helper) != 1:
+        raise Shape("cannot identify serde_workaround::set_if_none (%d)" % len(helper))
+    hp = Executor(helper[0], follow_yields=False).run()
+    for p in hp:
+        names = [e["callee"].split("::")[-1] for e in p.events if e["kind"] == "call"]
+        if "next_value" in names and ("check_is_already_set" not in names or names.index("check_is_already_set") > names.index("next_value")):
+            F.append(Finding("C13", "serde_workaround.set_if_none-without-check", "set_if_none reads a value without checking for a duplicate first",
+                             {"op": "cbor_duplicates"}, lambda o: bool(o["result"].get("accepted")), p))
+    npaths += len(hp)
+    for f in vms:
+        msg = re.search(r"Result<([\w:]+),", f.sig)
+        msg = msg.group(1) if msg else f.name[:40]
+        ps = Executor(f, max_paths=50000, max_steps=2000, follow_yields=False, max_visits=2).run()
+        npaths += len(ps)
+        bad = set()
+        for p in ps:
+            if p.end and p.end[0] == "unsupported":
+                raise Shape("unsupported MIR in visit_map of %s: %s" % (msg, p.end[1][:120]))
+            since_key = []
+            last_key = None
+            for e in p.events:
+                if e["kind"] != "call":
+                    continue
+                short = e["callee"].split("::")[-1]
+                if short == "next_key":
+                    since_key = []
+                    last_key = e["ret"]
+                elif short == "next_value":
+                    if "IgnoredAny" in e["full"]:
+                        continue
+                    if "check_is_already_set" not in since_key:
+                        # which key? the discriminant of the key read in this iteration
+                        key = None
+                        for k, op, v in p.conds:
+                            if op == "==" and last_key is not None and tstr(last_key) in k and "@Some.0" in k:
+                                key = v
+                        bad.add(key)
+                else:
+                    since_key.append(short)
+        for key in sorted(bad, key=lambda x: (x is None, x)):
+            F.append(Finding("C13", "visit_map.%s.key-%s.no-duplicate-check" % (msg.replace("::", "."), key),
+                             "the map visitor of %s reads member %s without first checking whether it was already set: a duplicated member is accepted" % (msg, key),
+                             {"op": "cbor_duplicates"}, lambda o: bool(o["result"].get("accepted")), None))
+    return F, npaths
